@@ -54,11 +54,19 @@ Value& MODExpression::value(Context & ctx) const
       v = Value(Value::type_integer);
       break;
     case Type::INTEGER:
+      if (a0.isNull() || a1.isNull())
+      {
+        v = Value(Value::type_integer);
+        break;
+      }
       if (*a1.integer() == 0)
         throw RuntimeError(EXC_RT_DIVIDE_BY_ZERO);
-      v = Value(Integer(*a0.integer() % *a1.integer()));
+      /* no remainder dividing by -1 (the lowest integer would overflow) */
+      v = Value(*a1.integer() == -1 ? Integer(0) : Integer(*a0.integer() % *a1.integer()));
       break;
     case Type::NUMERIC:
+      if (a0.isNull() || a1.isNull())
+        break;
       if (*a1.numeric() == 0.0)
         throw RuntimeError(EXC_RT_DIVIDE_BY_ZERO);
       v = Value(Numeric(std::fmod((double)*a0.integer(), *a1.numeric())));
@@ -74,11 +82,15 @@ Value& MODExpression::value(Context & ctx) const
       v = Value(Value::type_numeric);
       break;
     case Type::INTEGER:
+      if (a0.isNull() || a1.isNull())
+        break;
       if (*a1.integer() == 0)
         throw RuntimeError(EXC_RT_DIVIDE_BY_ZERO);
       v = Value(Numeric(std::fmod(*a0.numeric(), (double)*a1.integer())));
       break;
     case Type::NUMERIC:
+      if (a0.isNull() || a1.isNull())
+        break;
       if (*a1.numeric() == 0.0)
         throw RuntimeError(EXC_RT_DIVIDE_BY_ZERO);
       v = Value(Numeric(std::fmod(*a0.numeric(), *a1.numeric())));
